@@ -156,7 +156,7 @@ pub fn classify(req: &Req, resp: &Resp) -> Vec<&'static str> {
     l
 }
 
-fn forced_exec(kind: u8) -> Exec {
+pub fn forced_exec(kind: u8) -> Exec {
     Box::new(move |req| {
         #[cfg(curve25519_dalek_verif)]
         curve25519_dalek::verif_hooks::force_backend(kind);
@@ -203,6 +203,7 @@ pub fn checks(tier: Tier) -> Vec<Check> {
             classify: Box::new(classify),
             rule: RULE,
             exhaustive: false,
+            enumerate: None,
         });
     }
     for (label, kind) in dispatch_choices() {
@@ -215,6 +216,7 @@ pub fn checks(tier: Tier) -> Vec<Check> {
             classify: Box::new(classify),
             rule: RULE,
             exhaustive: false,
+            enumerate: None,
         });
         v.push(Check {
             name: format!("C04.msm[{}]", label),
@@ -225,6 +227,7 @@ pub fn checks(tier: Tier) -> Vec<Check> {
             classify: Box::new(classify),
             rule: RULE,
             exhaustive: false,
+            enumerate: None,
         });
         v.push(Check {
             name: format!("C04.msm-large[{}]", label),
@@ -235,6 +238,7 @@ pub fn checks(tier: Tier) -> Vec<Check> {
             classify: Box::new(classify),
             rule: RULE,
             exhaustive: false,
+            enumerate: None,
         });
     }
     v
